@@ -34,6 +34,23 @@ CHECKS = {
         "Trusted: the reference predicate; null scalar arguments under a declared type are not judged.",
         "4/C22",
     ),
+    "C25": (
+        "online model-stepped history monitor + key-collision search",
+        "store/get/mutate histories on the real ResultCache are stepped against an exact-content dict model (hit iff "
+        "the model holds the key, value equal to what was stored, no aliasing of returned/stored frames); "
+        "make_cache_key is additionally called on (base, one-aspect-perturbed) data-map pairs and must differ.",
+        "Trusted: the exact-content canonicalisation; pairs equal in the property's sense (1 vs 1.0, None vs NaN, "
+        "index-only) are not asserted.",
+        "4/C25",
+    ),
+    "C20": (
+        "online model-stepped history monitor (dict model) on both data spaces",
+        "insert/execute/remove/describe/retrieve/keys histories (bounded-exhaustive over a 14-op core alphabet to depth "
+        "3/4, random to length 25, user keys colliding with automatic names) run on DataModelSpace and DBSpace(SQLite) "
+        "and on a dict model in lock-step; keys() and every retrieve() are compared after every operation.",
+        "Trusted: Pandas evaluation of deliberately simple null-free pipelines as the expected value of execute().",
+        "4/C20",
+    ),
 }
 
 NOT_BUILT = "check not built yet (build in progress, see DESIGN.md section 8)"
